@@ -95,7 +95,9 @@ def main(run):
                  "2024-01-01T00:00:00.1234567890\n a 1\n b\n", "9999-12-31T23:59:59.999999999+23:59\n a 1\n b\n",
                  "0000-01-01\n a 1\n b\n", "2024-02-30\n a 1\n b\n", "2024-01-01T23:59:60\n a 1\n b\n",
                  "2024-01-01\n " + ":".join(["a"] * 300) + "  1\n b\n", "2024-01-01\n " + "a" * 100000 + "  1\n b\n",
-                 "2024-01-01 '" + "d" * 200000 + "\n a 1\n b\n", "", "\n\n\n", " ", "2024-01-01\n a 1\n b\n" * 1 + "\n" * 1000]:
+                 "2024-01-01 '" + "d" * 200000 + "\n a 1\n b\n", "", "\n\n\n", " ",
+                 "2024-01-01\n a\u1680:b  1\n c\n", "2024-01-01\n a  1\n b\u1680:c\n", "2024-01-01\n a:\u1680b\u1680:c  1\n d\n",
+                 "2024-01-01\n a  1 X\u1680\n b\n", "2024-01-01\n # tags: t\u1680\n a  1\n b\n", "2024-01-01\n a 1\n b\n" * 1 + "\n" * 1000]:
         reqs.append({"conf": {"toml": toml}, "inputs": [{"text": text}], "ops": [{"op": "txns"}]}); meta.append(("extreme", None, text))
     res = harness_run(reqs, timeout=900)
     classes = {}
